@@ -412,9 +412,17 @@ def virtualView (f : Func) (exch : Exchange) : Func :=
 
 /-! ### well-formedness of an exported function (checked by the driver on every function) -/
 
-/-- block `k` has index `k`; every instruction of a block is the entry of the instruction table
-    at its id; every use of an instruction value is listed among the referrers of that value -/
+/-- every table entry sits at its id; an `If` is the last instruction of its block; block `k` has
+    index `k`; every instruction of a block is the entry of the instruction table at its id; every
+    use of an instruction value is listed among the referrers of that value -/
 def wfCheck (f : Func) : Bool :=
+  -- every entry of the instruction table sits at its own id
+  (List.range f.instrs.size).all (fun d =>
+    match f.instrs[d]? with
+    | some i => i.id == d
+    | none => false) &&
+  -- nothing follows an If inside a block (go/ssa: terminators are last)
+  f.blocks.toList.all (fun bl => bl.instrs.dropLast.all (fun i => i.kind != .If)) &&
   (List.range f.blocks.size).all (fun k =>
     match f.blocks[k]? with
     | none => false
